@@ -287,7 +287,7 @@ func (fr *frame) execInstr(st *state, in ssa.Instruction) {
 		es := u.sortOf(stt.Elem())
 		ln := fr.val(v.Len)
 		if fr.sweepOn() {
-			fr.oblige(st, "make", fr.anchorText(v.Pos(), "callfull"), v.Pos(), fmt.Sprintf("(and (<= 0 %s) (<= %s 1000000000))", ln, ln), "makeslice: len out of range")
+			fr.oblige(st, "make", fr.anchorText(v.Pos(), "callfull"), v.Pos(), fmt.Sprintf("(and (<= 0 %s) (<= %s 1099511627776))", ln, ln), "makeslice: len out of range")
 		}
 		r := fr.freshRef(st, "slice")
 		key := u.arrKey(stt.Elem())
@@ -793,6 +793,12 @@ func (fr *frame) execNext(st *state, v *ssa.Next) {
 	ok := sc.declare("mok", "Bool")
 	k := sc.declare("mkey", ks)
 	m := ri.m
+	{
+		// a range over a map yields at most len(map) keys
+		fn := "maplen_" + sanitize(ks)
+		u.global(fmt.Sprintf("(declare-fun %s ((Array %s Bool)) Int)", fn, ks))
+		sc.assume(implies(st.reach, fmt.Sprintf("(and (>= %s 0) (=> %s (< %s (%s (select %s %s)))))", pos, ok, pos, fn, fc.hget(st, md), m)))
+	}
 	sc.assume(implies(ok, fmt.Sprintf("(and (not (= %s 0)) (select (select %s %s) %s))", m, fc.hget(st, md), m, k)))
 	val := sc.define("mval", vs, fmt.Sprintf("(select (select %s %s) %s)", fc.hget(st, mv), m, k))
 	mt := ri.typ.Underlying().(*types.Map)
